@@ -26,6 +26,11 @@ FM_SESSION = {"slope", "aspect", "curvature", "hillshade", "binary", "quantile",
               "trim", "crop", "perlin", "generate_terrain", "zonal_apply", "zonal_stats", "zonal_crosstab",
               "focal_stats", "true_color"}
 DT3 = {"int32", "float32", "float64"}
+# DESIGN section 6: pipelines of a user session (each stage consumes the previous result)
+PIPELINES = [["slope", "reclassify", "zonal_stats"], ["proximity", "binary", "crop"], ["focal_mean", "hotspots", "trim"],
+             ["aspect", "quantile", "regions"], ["trim", "viewshed", "slope"], ["curvature", "equal_interval", "zonal_crosstab"],
+             ["perlin", "slope", "hillshade"], ["generate_terrain", "focal_apply", "convolution_2d"],
+             ["crop", "focal_stats", "trim"], ["allocation", "zonal_apply", "ndvi"]]
 
 TWINS = [  # (MUT, property that must reject it)
     ("astype_noop_return", "NoAliasP"),
@@ -167,10 +172,17 @@ def parse_hist(path):
     return init, calls
 
 
-def session_jobs(ctx, n, maxcalls, rng, sid0):
-    files = ctx.simulate("Aliasing", dict(spec="Spec", constants=mc_constants(
-        dt={"int8", "int32", "uint16", "float32", "float64"}, maxcalls=maxcalls, fm=FM_SESSION)),
-        "sessions", num=n, depth=2 * maxcalls + 1)
+def session_jobs(ctx, n, maxcalls, rng, sid0, pipelines=False):
+    if pipelines:
+        fm = {f for p in PIPELINES for f in p}
+        cst = mc_constants(dt={"int32", "uint8", "float32", "float64"}, maxcalls=3, fm=fm)
+        cst["Pipelines"] = set()  # placeholder, replaced below (sequences are not hashable python sets)
+        cst["Pipelines"] = core.Raw("{" + ", ".join("<<" + ", ".join('"%s"' % f for f in p) + ">>" for p in PIPELINES) + "}")
+        files = ctx.simulate("Session", dict(spec="SSpec", constants=cst), "pipelines", num=n, depth=7)
+    else:
+        files = ctx.simulate("Aliasing", dict(spec="Spec", constants=mc_constants(
+            dt={"int8", "int32", "uint16", "float32", "float64"}, maxcalls=maxcalls, fm=FM_SESSION)),
+            "sessions", num=n, depth=2 * maxcalls + 1)
     meta = None
     jobs = []
     seen = set()
@@ -224,6 +236,17 @@ def run(ctx):
         ctx.note("replayed %s: verdict %s %s" % (ctx.replay, v.get(0), ctx.judge_extra.get(0)))
         return
 
+    # development aid (mutation testing): VERIF_FOCUS=f1,f2 restricts R/T to these functions and skips M
+    focus = set(filter(None, os.environ.get("VERIF_FOCUS", "").split(",")))
+    if focus:
+        ctx.note("VERIF_FOCUS=%s: partial run, not a registered configuration" % sorted(focus))
+        replay_part(ctx, rng, focus)
+        return
+    model_part(ctx)
+    replay_part(ctx, rng, focus)
+
+
+def model_part(ctx):
     # ---------------------------------------------------------------- M
     props = ["InputsUntouchedP", "NoAliasP", "IdentityKeptP"]
     ctx.model_check("Aliasing", dict(spec="Spec", invariants=["TypeOK"], properties=props, view="MCView",
@@ -248,12 +271,19 @@ def run(ctx):
                                          constants=mc_constants(mut="view_copies", nobj=1)), "view_copies_allowed")
     if not r.ok:
         raise core.MachineryError("a copying trim/crop must satisfy the property")
+    pc = mc_constants(fm={f for p in PIPELINES for f in p}, maxcalls=3, nobj=2)
+    pc["Pipelines"] = core.Raw("{" + ", ".join("<<" + ", ".join('"%s"' % f for f in p) + ">>" for p in PIPELINES) + "}")
+    ctx.model_check("Session", dict(spec="SSpec", properties=["SInputsUntouchedP", "SNoAliasP", "SIdentityKeptP"], view="SView",
+                                    constants=pc), "session_pipelines")
     ctx.exhaustive = True
     ctx.extra["t_model_s"] = round(time.time() - ctx.t0)
 
+
+
+def replay_part(ctx, rng, focus):
     # ---------------------------------------------------------------- R
     allcfgs = enumerate_configs(ctx)
-    allcfgs = [c for c in allcfgs if c["f"] not in ("bump",)]
+    allcfgs = [c for c in allcfgs if c["f"] not in ("bump",) and (not focus or c["f"] in focus)]
     if ctx.tier == "thorough":
         sel, extra = allcfgs, None
     else:
@@ -278,8 +308,29 @@ def run(ctx):
     cv = ctx.judge("Aliasing_Configs", ran, name="cover", count_traces=False,
                    env={"VERIF_MODE": "cover", "VERIF_FULL": "1" if ctx.tier == "thorough" else "0"})
     ctx.extra["configuration_cover"] = ctx.judge_extra.get(0)
-    if cv.get(0) != "ok":
+    if cv.get(0) != "ok" and not focus:
         raise core.MachineryError("configuration space not covered: %s %s" % (cv.get(0), ctx.judge_extra.get(0)))
+
+    # selftest of the binding: corrupted copies of a clean recorded session must be rejected with the right clause
+    if ctx.tier == "thorough" or ctx.selftest:
+        clean = next(strip_case(c) for c in cases if c["events"][0]["f"] == "slope" and c["events"][0]["cfg"][0] == "numpy"
+                     and not c["events"][0]["raised"])
+        def mutated(fn):
+            c = json.loads(json.dumps(clean))
+            fn(c)
+            return c
+        def m1(c): c["events"][0]["objs"][0]["val"] = "0" * 12
+        def m2(c): c["events"][0]["res"]["bufs"] = c["events"][0]["objs"][0]["bufs"]
+        def m3(c): c["events"][0]["res"]["coords"] = [p for p in c["events"][0]["res"]["coords"] if p[0] != "band"]
+        def m4(c): c["events"][1]["objs"][0]["val"] = "0" * 12
+        def m5(c): del c["events"][1]
+        def m6(c): c["events"][0]["objs"][0]["attrs"] = c["events"][0]["objs"][0]["attrs"][:-1]
+        want = ["input_values_changed", "output_shares_writable_memory", "coords_changed", "write_to_output_changed_input",
+                "malformed_log", "input_attrs_changed"]
+        got = ctx.judge("Aliasing_Trace", [mutated(m) for m in (m1, m2, m3, m4, m5, m6)], name="selftest", stateful=True,
+                        count_traces=False)
+        if [got.get(i) for i in range(6)] != want:
+            raise core.MachineryError("Aliasing_Trace accepted a corrupted session: %s" % got)
 
     # other parameter variants of every function (quick: float64/C; thorough: three configurations)
     from harness import alias_api
@@ -289,6 +340,8 @@ def run(ctx):
     for c in allcfgs:
         if (c["dtype"], c["layout"]) in vsel and c["supported"]:
             for vi in range(1, meta[c["f"]]["nvariants"]):
+                if c["backend"] not in meta[c["f"]]["variant_backends"].get(vi, alias_api.BACKENDS):
+                    continue
                 vjobs.append({"sid": len(vjobs), "tag": "variant", "calls": [
                     {"f": c["f"], "variant": vi, "args": None, "dtype": c["dtype"], "layout": c["layout"],
                      "backend": c["backend"]}]})
@@ -300,6 +353,9 @@ def run(ctx):
 
     # ---------------------------------------------------------------- T: call sequences
     sjobs = session_jobs(ctx, ctx.pick(40, 400), ctx.pick(4, 6), rng, 0)
+    sjobs += session_jobs(ctx, ctx.pick(30, 200), 3, rng, len(sjobs), pipelines=True)
+    if focus:
+        sjobs = [j for j in sjobs if any(c["f"] in focus for c in j["calls"])][:12]
     scases = run_sessions(sjobs)
     sv = ctx.judge("Aliasing_Trace", [strip_case(c) for c in scases], name="sessions", stateful=True, workers=2, parallel=4)
     handle(ctx, scases, sv, "session")
